@@ -305,6 +305,7 @@ func runProve(po proveOpts) (res proveResult) {
 	}
 	toolErrors := 0
 	vacuityBad := 0
+	var retried []string
 	replayDir := filepath.Join(verifRoot, "replay", prop)
 	for _, v := range verifiers {
 		fe := map[string]any{"function": v.fnName, "mode": v.mode}
@@ -387,6 +388,12 @@ func runProve(po proveOpts) (res proveResult) {
 			if ok {
 				nDis++
 				fDis++
+				if o.Retried {
+					retried = append(retried, o.Name)
+					if *verbose {
+						fmt.Printf("  NOTE %s was discharged only in the sequential retry (larger budget)\n", o.Name)
+					}
+				}
 				if len(samples) < 6 && o.Class != "nopanic" {
 					samples = append(samples, map[string]any{"obligation": o.Name, "class": o.Class, "at": o.Pos, "statement": o.Desc, "assumptions_in_path": len(o.PC), "script_bytes": len(o.Script), "verdict": o.Verdict, "solver": o.Solver, "ms": o.Ms})
 				}
@@ -472,6 +479,7 @@ func runProve(po proveOpts) (res proveResult) {
 			"samples":                  samples,
 			"functions_under_contract": funcsEv,
 			"solver_ms":                solverMs,
+			"discharged_only_in_retry": retried,
 			"backends":                 "z3-new 5.1.0 first (1.5 s), then z3-new, cvc5 1.0.3, z3 4.8.12 raced; first definite answer wins",
 			"timeout_ms":               timeout,
 			"explanation":              "every obligation is generated from /repo's current source by symbolic execution of the real function bodies against the contracts in zz_verif_contracts.go; callees are replaced by their contracts",
